@@ -13,12 +13,24 @@ _harn = [
    'configs': {'quick': [U(2, [0, 1])], 'thorough': [U(2, [0, 1]), U(2, [0, 1, 2])]},
    'selftest_config': U(2, [0, 1]),
    'selftests': [{'define': 'VS_SELFTEST_OOB', 'kind': 'memory'}, {'define': 'VS_SELFTEST_UAF', 'kind': 'memory'}, {'define': 'VS_SELFTEST_UNINIT', 'kind': 'memory'}, {'define': 'VS_SELFTEST_DOUBLEFREE', 'kind': 'memory'}]},
+  {'name': 'stl_probe', 'src': 'harness/C20/stl_probe.cc', 'tus': [],
+   'configs': {'quick': [{'MODE': 0}, {'MODE': 1}]}, 'selftest_config': {'MODE': 0}, 'selftests': []},
+  # upward simulation on every automaton of the universe, not only on trimmed ones (C04 assumes trimmed automata because
+  # the greatest-simulation claim is stated for them; memory safety is not limited to them): known finding C20-2
+  {'name': 'C04_up_any', 'src': 'harness/C04/sim.cc', 'tus': TREE_INCL,
+   'configs': {'quick': [U(3, [0, 1], DIR=1, ANY_AUTOMATON=None, VS_NO_PROPERTY=None)],
+               'thorough': [U(3, [0, 1], DIR=1, ANY_AUTOMATON=None, VS_NO_PROPERTY=None), U(2, [0, 2], DIR=1, ANY_AUTOMATON=None, VS_NO_PROPERTY=None),
+                            U(2, [0, 0, 1], DIR=1, ANY_AUTOMATON=None, VS_NO_PROPERTY=None), U(2, [0, 1, 2], DIR=1, ANY_AUTOMATON=None, VS_NO_PROPERTY=None, _time=1500)]},
+   'selftest_config': U(2, [0, 1], DIR=1, ANY_AUTOMATON=None, VS_NO_PROPERTY=None), 'selftests': []},
 ]
 import json as _json
 _claimed = set(k for k, v in _json.load(open(os.path.join(os.path.dirname(_here), 'claims.json'))).items() if v.get('claimed'))
 _covered = []
 # how many queries of each other property are re-run here (quick, thorough)
-_PER = {'quick': 1, 'thorough': 4}
+_PER = {'quick': 3, 'thorough': 6}
+# in addition: every algorithm selection of the explicit inclusion checker (hand-managed antichains, caches with invalidation
+# callbacks, emulated call stack) on a universe with two leaf symbols
+_MORE = {'C01:incl': [AB(1, 2, [0, 0, 1], SEL=s) for s in range(8)]}
 for _f in sorted(glob.glob(os.path.join(_here, '*.py'))):
     _n = os.path.basename(_f)[:-3]
     if _n in ('C20', 'C13'): continue
@@ -30,9 +42,14 @@ for _f in sorted(glob.glob(os.path.join(_here, '*.py'))):
         for _h in _c['harnesses']:
             def pick(tier, _h=_h):
                 cfgs = [c for c in _h['configs'].get(tier, _h['configs']['quick']) if not c.get('_heavy')]
-                step = max(1, len(cfgs) // _PER[tier])
-                return [dict(c, VS_NO_PROPERTY=None) for c in cfgs[::step][:_PER[tier]]]
-            _harn.append({'name': _pid + '_' + _h['name'], 'src': _h['src'], 'tus': _h['tus'], 'configs': {'quick': pick('quick'), 'thorough': pick('thorough')},
+                if tier == 'quick': cfgs = [c for c in cfgs if '_time' not in c] or cfgs      # the long-running universes are left to the thorough tier
+                n = min(_PER[tier], len(cfgs))     # evenly spread over the list, shifted by one per pick so that periodic lists (8 algorithm selections per universe) are not sampled in phase
+                idx = []
+                for i in list(((i * len(cfgs)) // n + i) % len(cfgs) for i in range(n)) + list(range(len(cfgs))):
+                    if i not in idx and len(idx) < n: idx.append(i)
+                return [dict(cfgs[i], VS_NO_PROPERTY=None) for i in idx]
+            _more = [dict(c, VS_NO_PROPERTY=None) for c in _MORE.get(_pid + ':' + _h['name'], [])]
+            _harn.append({'name': _pid + '_' + _h['name'], 'src': _h['src'], 'tus': _h['tus'], 'configs': {'quick': pick('quick') + _more, 'thorough': pick('thorough') + _more},
                           'selftest_config': dict(_h.get('selftest_config') or _h['configs']['quick'][0], VS_NO_PROPERTY=None), 'selftests': []})
             _covered.append(_pid + ':' + _h['name'])
 
@@ -42,7 +59,7 @@ CHECKS = {
   'val_runs': {'quick': 2, 'thorough': 6},   # every harness is validated with 12/40 runs in its own property's check
   'pre_cmd': 'sh engine/tests/run.sh',     # engine regression tests: 22 tiny C programs with known verdicts (detectors, merges, pointer provenance)
   'explanation': 'Memory-safety and undefined-behaviour obligations checked by the symbolic engine on the real code of the other properties\' harnesses (property assertions disabled with -DVS_NO_PROPERTY), i.e. on every automaton / history / diagram of those universes: null, dangling-stack, freed and out-of-bounds loads and stores; free of non-heap or interior pointers; double free; new/delete[]/free mismatch; division by zero; shift >= width; signed overflow of nsw arithmetic; a branch, switch, address or size that depends on uninitialised memory; abort/terminate/failed libstdc++ assertion; unexpected exception; reaching LLVM unreachable; indirect call to a non-function.  A self-test harness plants a heap overflow, a use after free, a branch on uninitialised memory and a double free behind input-dependent conditions; each must be reported and must reproduce on the native ASan/UBSan (valgrind for the uninitialised read) twin.  Harnesses re-run: ' + ', '.join(_covered),
-  'bounds': {'quick': 'one query per harness of every other claimed property (from their quick universes)', 'thorough': 'up to 4 queries per harness (their thorough universes)'},
+  'bounds': {'quick': 'up to 3 queries per harness of every other claimed property (from their quick universes)', 'thorough': 'up to 6 queries per harness (their thorough universes)'},
   'outside': 'code not reached by any harness (per-file list in DESIGN.md); behaviours that need a particular malloc address pattern, container reallocation order or rehash beyond the sizes reached; bit-precise definedness; data races; allocation failure',
   'assumptions': ['the uninitialised-memory check is value-based: a value that provably does not influence the branch/address is not reported'],
   'harnesses': _harn,
